@@ -296,12 +296,13 @@ pub open spec fn live_covered(f: il::Function, m: Map<il::ProgramLocation, Locat
 }
 
 /// both scans complete: every live definition is in `live`
-pub proof fn lemma_live_covered(f: il::Function, m: Map<il::ProgramLocation, LocationSet>, bs: Seq<&il::Block>, live: FLSet)
+pub proof fn lemma_live_covered(f: il::Function, m: Map<il::ProgramLocation, LocationSet>, bs: Seq<&il::Block>, bs2: Seq<&il::Block>, live: FLSet)
     requires
         f.function_wf(),
         f.control_flow_graph.graph.lists_vertices(bs, |k: usize| true),
+        f.control_flow_graph.graph.lists_vertices(bs2, |k: usize| true),
         exits_done(f, m, bs, bs.len() as int, live),
-        observers_done(f, m, bs, bs.len() as int, live),
+        observers_done(f, m, bs2, bs2.len() as int, live),
     ensures live_covered(f, m, live),
 {
     let ids = |k: usize| true;
@@ -321,15 +322,231 @@ pub proof fn lemma_live_covered(f: il::Function, m: Map<il::ProgramLocation, Loc
                 Loc::Instruction(b, ix) => {
                     assert(il::instr_valid(f, b, ix));
                     assert(ids(b) && f.control_flow_graph.graph.vertices@.contains_key(b));
-                    let i = choose|i: int| 0 <= i < bs.len() && graph::Vertex::index_spec(#[trigger] bs[i]) == b;
-                    assert(bs[i].index == b);
-                    assert(*bs[i] == f.control_flow_graph.graph.vertices@[b]);
-                    let p = choose|p: int| 0 <= p < bs[i].instructions@.len() && (#[trigger] bs[i].instructions@[p]).index == ix;
-                    assert(obs_block_done(f, m, *bs[i], bs[i].instructions@.len() as int, live));
-                    assert(obs_done(f, m, Loc::Instruction(bs[i].index, bs[i].instructions@[p].index), live));
+                    let i = choose|i: int| 0 <= i < bs2.len() && graph::Vertex::index_spec(#[trigger] bs2[i]) == b;
+                    assert(bs2[i].index == b);
+                    assert(*bs2[i] == f.control_flow_graph.graph.vertices@[b]);
+                    let p = choose|p: int| 0 <= p < bs2[i].instructions@.len() && (#[trigger] bs2[i].instructions@[p]).index == ix;
+                    assert(obs_block_done(f, m, *bs2[i], bs2[i].instructions@.len() as int, live));
+                    assert(obs_done(f, m, Loc::Instruction(bs2[i].index, bs2[i].instructions@[p].index), live));
                 }
                 _ => {}
             }
         }
+    }
+}
+
+// ---------------------------------------------------------------------------------------------
+// exactness of `live`: nothing else is recorded
+
+/// every recorded function location is (the function location of) a live definition
+pub open spec fn live_exact(f: il::Function, m: Map<il::ProgramLocation, LocationSet>, live: FLSet) -> bool {
+    forall|k: il::FunctionLocation| #[trigger] live.contains(k) ==> is_live(f, m, ploc(f, il::fl_loc(k)))
+}
+
+/// every member of `s` is a live definition of `f`
+pub open spec fn all_live(f: il::Function, m: Map<il::ProgramLocation, LocationSet>, s: PLSet) -> bool {
+    forall|d: il::ProgramLocation| #[trigger] s.contains(d) ==> is_live(f, m, d) && d.function_index == f.index
+}
+
+pub proof fn lemma_live_insert(f: il::Function, m: Map<il::ProgramLocation, LocationSet>, live: FLSet, d: il::ProgramLocation)
+    requires live_exact(f, m, live), is_live(f, m, d), d.function_index == f.index,
+    ensures live_exact(f, m, live.insert(d.function_location)),
+{
+    lemma_ploc_of(f, d);
+}
+
+/// the definitions valid at the end of a block without successors are live
+pub proof fn lemma_exit_state_live(fr: &il::Function, m: Map<il::ProgramLocation, LocationSet>, b: usize, l: Loc)
+    requires is_rd_solution(fr, m), is_exit_block(*fr, b), il::is_block_end(*fr, b, l), m.contains_key(ploc(*fr, l)),
+    ensures all_live(*fr, m, m[ploc(*fr, l)]@),
+{
+    let f = *fr;
+    assert(opt_inv(&rda_of(fr), fview(m, f)(l)));
+    assert(is_exit_end(f, l));
+    assert forall|d: il::ProgramLocation| #[trigger] m[ploc(f, l)]@.contains(d) implies is_live(f, m, d) && d.function_index == f.index by {
+        assert(is_exit_end(f, l) && m.contains_key(ploc(f, l)) && m[ploc(f, l)]@.contains(d));
+        assert(reaches_exit(f, m, d));
+        assert(is_def_loc(f, d));
+    }
+}
+
+/// the definitions reaching a Branch / Intrinsic before it executes are live
+pub proof fn lemma_observer_state_live(fr: &il::Function, m: Map<il::ProgramLocation, LocationSet>, l: Loc, s: PLSet)
+    requires is_rd_solution(fr, m), is_observer(*fr, l), is_rd_in(*fr, m, l, s),
+    ensures all_live(*fr, m, s),
+{
+    let f = *fr;
+    lemma_rd_in_defs_ok(fr, m, l, s);
+    lemma_rd_in_has(f, m, l, s);
+    assert forall|d: il::ProgramLocation| #[trigger] s.contains(d) implies is_live(f, m, d) && d.function_index == f.index by {
+        assert(is_observer(f, l) && rd_in_has(f, m, l, d));
+        assert(reaches_observer(f, m, d));
+        assert(is_def_loc(f, d));
+    }
+}
+
+// ---------------------------------------------------------------------------------------------
+// scanning a listed state into `live`
+
+/// the first `n` listed definitions are recorded
+pub open spec fn listed_in(items: Seq<&il::ProgramLocation>, n: int, live: FLSet) -> bool {
+    forall|j: int| 0 <= j < n && j < items.len() ==> live.contains((#[trigger] items[j]).function_location)
+}
+
+pub proof fn lemma_listed_done(s: PLSet, items: Seq<&il::ProgramLocation>, n: int, live: FLSet)
+    requires graph::seq_lists_set_ref(items, s), listed_in(items, n, live),
+    ensures n == items.len() ==> defs_in(s, live),
+{
+    if n != items.len() { return; }
+    graph::lemma_seq_lists_set_ref(items, s);
+    assert forall|d: il::ProgramLocation| #[trigger] s.contains(d) implies live.contains(d.function_location) by {
+        let i = choose|i: int| 0 <= i < items.len() && *(#[trigger] items[i]) == d;
+        assert(live.contains(items[i].function_location));
+    }
+}
+
+// ---------------------------------------------------------------------------------------------
+// blocks
+
+/// where block `blk` ends: its last instruction, or its EmptyBlock location
+pub open spec fn end_loc(blk: il::Block) -> Loc {
+    if blk.instructions@.len() == 0 { Loc::EmptyBlock(blk.index) } else { Loc::Instruction(blk.index, blk.instructions@.last().index) }
+}
+
+pub proof fn lemma_block_end_unique(f: il::Function, blk: il::Block)
+    requires il::block_of(f, blk),
+    ensures forall|l: Loc| #![trigger il::is_block_end(f, blk.index, l)] il::is_block_end(f, blk.index, l) <==> l == end_loc(blk),
+{
+}
+
+/// a block has no successors exactly when its successor set is empty
+pub proof fn lemma_no_successors(f: il::Function, b: usize)
+    requires f.function_wf(), f.control_flow_graph.has_block(b),
+    ensures (f.control_flow_graph.graph.successors@[b]@.len() == 0) <==> is_exit_block(f, b),
+{
+    let gr = f.control_flow_graph.graph;
+    assert(gr.adj_wf() && gr.vertex_wf());
+    assert(gr.vertices@.dom().contains(b));
+    assert(gr.successors@.dom().contains(b));
+    let s = gr.successors@[b]@;
+    if s.len() == 0 {
+        s.lemma_len0_is_empty();
+        assert forall|t: usize| !(#[trigger] f.control_flow_graph.has_edge(b, t)) by {
+            if gr.edges@.contains_key((b, t)) { assert(gr.successors@[b]@.contains(t)); }
+        }
+    } else {
+        if is_exit_block(f, b) {
+            assert forall|t: usize| !s.contains(t) by {
+                if gr.successors@[b]@.contains(t) { assert(gr.edges@.contains_key((b, t))); assert(f.control_flow_graph.has_edge(b, t)); }
+            }
+            assert(s =~= Set::<usize>::empty());
+        }
+    }
+}
+
+/// the frame keeps the instruction indices of every block
+pub proof fn lemma_nopped_has_instruction(f: il::Function, g: il::Function, ks: LSet, b: usize, i: usize)
+    requires nopped(f, g, ks), il::instr_valid(f, b, i),
+    ensures g.control_flow_graph.graph.vertices@.contains_key(b), g.control_flow_graph.graph.vertices@[b].has_instruction(i),
+{
+    let fb = f.control_flow_graph.graph.vertices@[b];
+    let gb = g.control_flow_graph.graph.vertices@[b];
+    assert(f.control_flow_graph.graph.vertices@.dom().contains(b));
+    assert(block_nopped(fb, gb, ks));
+    let p = choose|p: int| 0 <= p < fb.instructions@.len() && (#[trigger] fb.instructions@[p]).index == i;
+    assert(ins_nopped(fb.instructions@[p], gb.instructions@[p], ks(Loc::Instruction(fb.index, fb.instructions@[p].index))));
+    assert(gb.instructions@[p].index == i);
+}
+
+// ---------------------------------------------------------------------------------------------
+// the def-use chains do not depend on which solution of the reaching-definitions equations they were computed from
+
+pub proof fn lemma_def_use_any_solution(fr: &il::Function, m2: Map<il::ProgramLocation, LocationSet>, m: Map<il::ProgramLocation, LocationSet>, du: Map<il::ProgramLocation, LocationSet>)
+    requires fr.function_wf(), is_rd_solution(fr, m2), is_rd_solution(fr, m), is_def_use(*fr, m2, du),
+    ensures is_def_use(*fr, m, du),
+{
+    let f = *fr;
+    lemma_solution_unique(fr, m2, m);
+    assert(m.dom().subset_of(du.dom()));
+    assert forall|d: il::ProgramLocation, u: il::ProgramLocation| #![trigger chain_has(du, d, u)] chain_has(du, d, u) <==>
+            (m.contains_key(u) && rd_in_has(f, m, kloc(u), d) && uses(f, kloc(u), kloc(d))) by {
+        assert(m.dom().contains(u) == m2.dom().contains(u));
+        if rd_in_has(f, m2, kloc(u), d) { lemma_rd_in_has_unique(fr, m2, m, kloc(u), d); }
+        if rd_in_has(f, m, kloc(u), d) { lemma_rd_in_has_unique(fr, m, m2, kloc(u), d); }
+    }
+}
+
+// ---------------------------------------------------------------------------------------------
+// the kill list
+
+/// what the three filters establish for an item of the kill list (w.r.t. the concrete `live` set)
+pub open spec fn kill_item_ok(f: il::Function, du: Map<il::ProgramLocation, LocationSet>, live: FLSet, k: il::FunctionLocation) -> bool {
+    &&& is_candidate(f, il::fl_loc(k))
+    &&& !live.contains(k)
+    &&& du.contains_key(ploc(f, il::fl_loc(k))) && du[ploc(f, il::fl_loc(k))]@ == Set::<il::ProgramLocation>::empty()
+}
+
+/// the locations of the first `n` items of the kill list
+pub open spec fn kpre(ks: Seq<il::FunctionLocation>, n: int) -> LSet {
+    |l: Loc| exists|j: int| 0 <= j < n && j < ks.len() && il::fl_loc(#[trigger] ks[j]) == l
+}
+
+/// the locations of the kill list
+pub open spec fn kall(ks: Seq<il::FunctionLocation>) -> LSet {
+    |l: Loc| exists|j: int| 0 <= j < ks.len() && il::fl_loc(#[trigger] ks[j]) == l
+}
+
+pub proof fn lemma_kpre_step(ks: Seq<il::FunctionLocation>, n: int, l: Loc)
+    requires 0 <= n < ks.len(),
+    ensures kpre(ks, n + 1)(l) == (l == il::fl_loc(ks[n]) || kpre(ks, n)(l)),
+{
+    if kpre(ks, n)(l) {
+        let j = choose|j: int| 0 <= j < n && j < ks.len() && il::fl_loc(#[trigger] ks[j]) == l;
+        assert(0 <= j < n + 1 && il::fl_loc(ks[j]) == l);
+    }
+    if l == il::fl_loc(ks[n]) { assert(0 <= n < n + 1 && il::fl_loc(ks[n]) == l); }
+    if kpre(ks, n + 1)(l) {
+        let j = choose|j: int| 0 <= j < n + 1 && j < ks.len() && il::fl_loc(#[trigger] ks[j]) == l;
+        if j < n { assert(kpre(ks, n)(l)); }
+    }
+}
+
+/// THE RESULT of dead-code elimination on `fr`: frame + kill set, w.r.t. the reaching definitions `m` and the def-use chains `du`
+pub open spec fn dce_result(fr: &il::Function, g: il::Function, ks: LSet, m: Map<il::ProgramLocation, LocationSet>, du: Map<il::ProgramLocation, LocationSet>) -> bool {
+    &&& nopped(*fr, g, ks)
+    &&& is_rd_solution(fr, m)
+    &&& is_def_use(*fr, m, du)
+    &&& kill_set_ok(*fr, m, du, ks)
+    &&& kill_set_all(*fr, m, du, ks)
+}
+
+/// the kill list is exactly the set of locations that satisfy the kill-set condition
+pub proof fn lemma_kill_sets(f: il::Function, m: Map<il::ProgramLocation, LocationSet>, du: Map<il::ProgramLocation, LocationSet>, live: FLSet,
+        locs: Seq<il::RefFunctionLocation>, ks: Seq<il::FunctionLocation>)
+    requires
+        live_covered(f, m, live), live_exact(f, m, live),
+        il::lists_rfls(locs, f, il::sel_all(f)),
+        forall|j: int| 0 <= j < ks.len() ==> kill_item_ok(f, du, live, #[trigger] ks[j]),
+        forall|i: int| 0 <= i < locs.len() && kill_item_ok(f, du, live, il::loc_fl(il::loc_of(#[trigger] locs[i]))) ==> ks.contains(il::loc_fl(il::loc_of(locs[i]))),
+    ensures
+        kill_set_ok(f, m, du, kall(ks)),
+        kill_set_all(f, m, du, kall(ks)),
+{
+    assert forall|l: Loc| #[trigger] kall(ks)(l) implies killable(f, m, du, l) by {
+        let j = choose|j: int| 0 <= j < ks.len() && il::fl_loc(#[trigger] ks[j]) == l;
+        assert(kill_item_ok(f, du, live, ks[j]));
+        assert(il::loc_fl(il::fl_loc(ks[j])) == ks[j]);
+        if is_live(f, m, ploc(f, l)) { assert(live.contains(ploc(f, l).function_location)); }
+    }
+    assert forall|l: Loc| #[trigger] killable(f, m, du, l) implies kall(ks)(l) by {
+        assert(il::sel_all(f)(l));
+        let i = choose|i: int| 0 <= i < locs.len() && il::loc_of(#[trigger] locs[i]) == l;
+        lemma_ploc_inj(f, l, l);
+        assert(il::fl_loc(il::loc_fl(l)) == l);
+        if live.contains(il::loc_fl(l)) { assert(is_live(f, m, ploc(f, il::fl_loc(il::loc_fl(l))))); }
+        assert(kill_item_ok(f, du, live, il::loc_fl(il::loc_of(locs[i]))));
+        assert(ks.contains(il::loc_fl(l)));
+        let j = choose|j: int| 0 <= j < ks.len() && ks[j] == il::loc_fl(l);
+        assert(il::fl_loc(ks[j]) == l);
     }
 }
